@@ -131,3 +131,33 @@ reg(Spec('C06', ['c06:C06'],
               'the probes list every distinct cell reached' + R_DISTINCT,
          assumptions=['sampled histories with measured coverage of the reference table, not exhaustive enumeration to a depth bound',
                       'only single-frame receive steps are judged (attribution is exact there); bursts are covered by C21 equivalence']))
+
+reg(Spec('C08', ['c08:C08'],
+         quick=[('MISUSE', 2500), ('DUPLEX', 800), ('UPGRADE', 500)],
+         thorough=[('MISUSE', 60000), ('DUPLEX', 20000), ('UPGRADE', 10000)],
+         rule=R_RUN + 'non-trivial = at least one ordering call (headers/data/end/push/prioritize/alt-svc) was refused' + R_DISTINCT))
+reg(Spec('C09', ['c09:C09'],
+         quick=[('DUPLEX', 1200), ('RACE', 800), ('ADV', 2000), ('MISUSE', 600)],
+         thorough=[('DUPLEX', 30000), ('RACE', 20000), ('ADV', 50000), ('MISUSE', 15000)],
+         rule=R_RUN + 'non-trivial = an id at a boundary / a skipped id was used, a header call failed, or a peer frame addressed an idle, skipped or closed id' + R_DISTINCT))
+reg(Spec('C10', ['c10:C10'],
+         quick=[('RACE', 2500), ('DUPLEX', 1000), ('ADV', 2500)],
+         thorough=[('RACE', 60000), ('DUPLEX', 20000), ('ADV', 60000)],
+         overrides={'*': {'settings_bias': {3: [0, 1, 1, 2, 3]}, 'at_limit_attempts': 0.4, 'ops_boost': {'open': 3, 'push': 3, 'settings': 2},
+                          'settings_churn': 0.1, 'adv_new_streams': 0.35}},
+         rule=R_RUN + 'non-trivial = a run that reached a concurrency limit (either direction)' + R_DISTINCT))
+
+reg(Spec('C22', ['c22:C22'],
+         quick=[('RACE', 2000), ('DUPLEX', 800), ('ADV', 1500), ('MISUSE', 500)],
+         thorough=[('RACE', 50000), ('DUPLEX', 20000), ('ADV', 40000), ('MISUSE', 10000)],
+         overrides={'*': {'push': 0.2, 'settings_bias': {2: [0, 0, 1]}, 'at_limit_attempts': 0.4, 'ops_boost': {'push': 6, 'settings': 2}}},
+         rule=R_RUN + 'non-trivial = a push met a disabled ENABLE_PUSH (either side) or a closed parent' + R_DISTINCT))
+reg(Spec('C23', ['c23:C23'],
+         quick=[('DUPLEX', 1500), ('ADV', 2000), ('MISUSE', 500)],
+         thorough=[('DUPLEX', 30000), ('ADV', 50000), ('MISUSE', 10000)],
+         rule=R_RUN + 'non-trivial = invalid priority arguments, a self-dependency, or PRIORITY on an idle/closed stream' + R_DISTINCT))
+reg(Spec('C24', ['c24:C24'],
+         quick=[('DUPLEX', 1500), ('RACE', 800), ('ADV', 2000), ('MISUSE', 500)],
+         thorough=[('DUPLEX', 30000), ('RACE', 20000), ('ADV', 50000), ('MISUSE', 10000)],
+         overrides={'*': {'ops_boost': {'altsvc': 6}}},
+         rule=R_RUN + 'non-trivial = an advertisement attempted by a client or on a half-closed/closed stream, or an ALTSVC frame delivered on a faulted direction' + R_DISTINCT))
